@@ -9,7 +9,7 @@ SPEC = dict(
         "for key scans MATCH is applied to the stored name 'table:key' (as the implementation and the user guide's example do); for collection scans to the element name; glob semantics are those of gobwas/glob, the library the code uses",
         "reverse key scans are not run on the rocksdb engine: the sandbox's assertion-enabled stock librocksdb aborts in FixedPrefixTransform (InDomain) there, a release build does not",
         "names containing 0x00 are generated on every engine since the mem-radix fix; empty names are outside the property's stated domain",
-        "the FULLSCAN command (rockredis/fullscan.go, undocumented in the user guide) is not driven; its key builders are used by the whole-table delete, which C12 exercises",
+        "the FULLSCAN command (rockredis/fullscan.go) is not part of the claim: the statement names SCAN/ADVSCAN/HSCAN/SSCAN/ZSCAN, the user guide does not document FULLSCAN, and a generated cursor-chained run of it (DESIGN.md 9.8) showed a legacy interface that answers with internal representations (versioned collection keys, kv values with their stored header) although every (key, element) pair came back exactly once and every run terminated; its key builders are used by the whole-table delete, which C12 exercises",
     ],
     quick=[
         dict(name="key_mem", pkg="c13_scan", test="TestKeyScanMem", checks=700, shards=2),
